@@ -35,13 +35,31 @@ func init() {
 		}
 		// ops, err := s.GetUpdateOperations(ctx, driver.<Kind>)
 		opsKind := ""
+		// in: the io.Reader parameter; l: the variable jsonblob.Load's result is assigned to
+		inParam := ""
+		if ps := fd.Type.Params; ps != nil && len(ps.List) > 0 {
+			last := ps.List[len(ps.List)-1]
+			if len(last.Names) > 0 {
+				inParam = last.Names[len(last.Names)-1].Name
+			}
+		}
+		loaderVar, loadArg := "", ""
+		errReturned := false
 		var loop *ast.ForStmt
 		label := ""
 		errChecked := false
 		for _, st := range fd.Body.List {
 			if as, ok := st.(*ast.AssignStmt); ok && len(as.Rhs) == 1 {
-				if call, ok := as.Rhs[0].(*ast.CallExpr); ok && oiSelName(call.Fun) == "GetUpdateOperations" && len(call.Args) == 2 {
+				if call, ok := as.Rhs[0].(*ast.CallExpr); ok && oiSelName(call.Fun) == "GetUpdateOperations" && len(call.Args) == 2 && loop == nil {
 					opsKind = oiSelName(call.Args[1])
+				}
+				if call, ok := as.Rhs[0].(*ast.CallExpr); ok && oiSelName(call.Fun) == "Load" && len(call.Args) == 2 && loop == nil {
+					if id, ok := as.Lhs[0].(*ast.Ident); ok {
+						loaderVar = id.Name
+					}
+					if id, ok := call.Args[1].(*ast.Ident); ok {
+						loadArg = id.Name
+					}
 				}
 			}
 			if ls, ok := st.(*ast.LabeledStmt); ok {
@@ -61,6 +79,16 @@ func init() {
 					}
 					return true
 				})
+				// if err := l.Err(); err != nil { return err }
+				if is, ok := st.(*ast.IfStmt); ok && is.Init != nil && is.Else == nil {
+					if as, ok := is.Init.(*ast.AssignStmt); ok && len(as.Rhs) == 1 && len(as.Lhs) == 1 {
+						c, ok1 := as.Rhs[0].(*ast.CallExpr)
+						ev, ok2 := as.Lhs[0].(*ast.Ident)
+						if ok1 && ok2 && oiSelName(c.Fun) == "Err" && oiRecv(c.Fun) == loaderVar && oiNotNil(is.Cond, ev.Name) && oiReturnsNonNil(is.Body) {
+							errReturned = true
+						}
+					}
+				}
 			}
 		}
 		if loop == nil {
@@ -73,10 +101,14 @@ func init() {
 		if len(loop.Body.List) == 0 {
 			return "", fmt.Errorf("%s: empty loop body", src)
 		}
+		loaderConsistent := loaderVar != "" && oiRecv(cond.Fun) == loaderVar
 		// e := l.Entry()
 		ev := ""
 		if as, ok := loop.Body.List[0].(*ast.AssignStmt); ok && len(as.Lhs) == 1 && len(as.Rhs) == 1 {
 			if c, ok := as.Rhs[0].(*ast.CallExpr); ok && oiSelName(c.Fun) == "Entry" {
+				if oiRecv(c.Fun) != loaderVar {
+					loaderConsistent = false
+				}
 				if id, ok := as.Lhs[0].(*ast.Ident); ok {
 					ev = id.Name
 				}
@@ -101,6 +133,7 @@ func init() {
 		}
 		var calls []guarded
 		unknown := 0
+		guardedNoReturn := 0
 		for _, st := range loop.Body.List[1:] {
 			switch s := st.(type) {
 			case *ast.RangeStmt:
@@ -132,7 +165,14 @@ func init() {
 					for _, x := range is.Body.List {
 						if br, ok := x.(*ast.BranchStmt); ok && br.Tok == token.CONTINUE && br.Label != nil {
 							skipLabel = br.Label.Name
+							continue
 						}
+						if !oiIsLogging(x) {
+							unknown++
+						}
+					}
+					if is.Else != nil || is.Init != nil {
+						unknown++
 					}
 				}
 			case *ast.IfStmt:
@@ -161,9 +201,30 @@ func init() {
 					unknown++
 					continue
 				}
+				// the body is `if ref, err = s.Update…(…); err != nil { return <error> }` and nothing else
+				propagates := false
+				if len(s.Body.List) == 1 && s.Init == nil {
+					if inner, ok := s.Body.List[0].(*ast.IfStmt); ok && inner.Init != nil && inner.Else == nil {
+						if as, ok := inner.Init.(*ast.AssignStmt); ok && len(as.Lhs) == 2 && len(as.Rhs) == 1 {
+							if errv, ok := as.Lhs[1].(*ast.Ident); ok && oiNotNil(inner.Cond, errv.Name) && oiReturnsNonNil(inner.Body) {
+								propagates = true
+							}
+						}
+					}
+				}
+				if !propagates {
+					guardedNoReturn++
+				}
 				calls = append(calls, g)
-			case *ast.DeclStmt, *ast.ExprStmt:
-				// `var ref uuid.UUID`, logging
+			case *ast.DeclStmt:
+				// `var ref uuid.UUID`
+				if gd, ok := s.Decl.(*ast.GenDecl); !ok || gd.Tok != token.VAR {
+					unknown++
+				}
+			case *ast.ExprStmt:
+				if !oiIsLogging(s) {
+					unknown++
+				}
 			default:
 				unknown++
 			}
@@ -180,8 +241,69 @@ func init() {
 		out += "def guardedCalls : List (String × String × List String) := [" + strings.Join(cs, ", ") + "]\n"
 		out += fmt.Sprintf("def errCheckedAfterLoop : Bool := %v\n", errChecked)
 		out += fmt.Sprintf("def unrecognisedStatements : Nat := %d\n", unknown)
+		out += fmt.Sprintf("def loaderReadsTheInput : Bool := %v\n", inParam != "" && loadArg == inParam)
+		out += fmt.Sprintf("def oneLoaderThroughout : Bool := %v\n", loaderConsistent)
+		out += fmt.Sprintf("def storeErrorsNotReturned : Nat := %d\n", guardedNoReturn)
+		out += fmt.Sprintf("def loaderErrorReturned : Bool := %v\n", errReturned)
 		return out + Footer("OfflineImport"), nil
 	}})
+}
+
+// oiRecv is x of a selector expression x.Sel when x is an identifier.
+func oiRecv(e ast.Expr) string {
+	if se, ok := e.(*ast.SelectorExpr); ok {
+		if id, ok := se.X.(*ast.Ident); ok {
+			return id.Name
+		}
+	}
+	return ""
+}
+
+// oiNotNil: the expression is `<name> != nil`.
+func oiNotNil(e ast.Expr, name string) bool {
+	be, ok := e.(*ast.BinaryExpr)
+	if !ok || be.Op != token.NEQ {
+		return false
+	}
+	x, ok1 := be.X.(*ast.Ident)
+	y, ok2 := be.Y.(*ast.Ident)
+	return ok1 && ok2 && x.Name == name && y.Name == "nil"
+}
+
+// oiReturnsNonNil: the block is a single `return <expr>` whose value is not the literal nil.
+func oiReturnsNonNil(b *ast.BlockStmt) bool {
+	if b == nil || len(b.List) != 1 {
+		return false
+	}
+	rs, ok := b.List[0].(*ast.ReturnStmt)
+	if !ok || len(rs.Results) != 1 {
+		return false
+	}
+	if id, ok := rs.Results[0].(*ast.Ident); ok && id.Name == "nil" {
+		return false
+	}
+	return true
+}
+
+// oiIsLogging: an expression statement that is a method chain rooted at the package zlog.
+func oiIsLogging(st ast.Stmt) bool {
+	es, ok := st.(*ast.ExprStmt)
+	if !ok {
+		return false
+	}
+	var e ast.Expr = es.X
+	for {
+		switch x := e.(type) {
+		case *ast.CallExpr:
+			e = x.Fun
+		case *ast.SelectorExpr:
+			e = x.X
+		case *ast.Ident:
+			return x.Name == "zlog"
+		default:
+			return false
+		}
+	}
 }
 
 func oiSelName(e ast.Expr) string {
